@@ -54,3 +54,53 @@ def gen_ccase(rng):
         [('gwc', True, False), ('rec', False), ('idx', 9)],
     ])
     return {'heap': heap, 'root': 0, 'path': path, 'vals': rng.random() < 0.5, 'nexts': rng.choice([1, 2, 3])}
+
+
+def gen_dagcase(rng):
+    """A finite heap without cycles in which one container object is reachable along several routes (a document
+    that shares sub-objects: it still serialises to a finite JSON tree).  Every occurrence is a node of its own:
+    the recursive step reports each of them (C02-m10: the recursive step refusing a container it has entered
+    before).  nexts is the size of the unfolding plus two, so the run is observed to its end."""
+    n = rng.choice([3, 4, 5, 6])
+    keys = ['a', 'x', 'k']
+    heap = []
+    for i in range(n):
+        later = list(range(i + 1, n))
+        r = rng.random()
+        if not later or (i > 0 and r < 0.25):
+            heap.append(['scalar', rng.choice([0, 1, 'a', None])])
+        elif r < 0.65:
+            ks = rng.sample(keys, rng.randint(1, 3))
+            heap.append(['dict', [[k, rng.choice(later)] for k in ks]])
+        else:
+            heap.append(['list', [rng.choice(later) for _ in range(rng.randint(1, 3))]])
+    # one container referenced twice from the root's side
+    conts = [i for i in range(1, n) if heap[i][0] != 'scalar']
+    if conts:
+        t = rng.choice(conts)
+        holders = [i for i in range(t) if heap[i][0] != 'scalar']
+        for h in rng.sample(holders, min(len(holders), 2)) + [0]:
+            if heap[h][0] == 'dict':
+                free = [k for k in keys + ['b'] if k not in [kv[0] for kv in heap[h][1]]]
+                if free:
+                    heap[h][1].append([rng.choice(free), t])
+            else:
+                heap[h][1].append(t)
+
+    def size(i):
+        nd = heap[i]
+        if nd[0] == 'dict':
+            return 1 + sum(size(j) for _, j in nd[1])
+        if nd[0] == 'list':
+            return 1 + sum(size(j) for j in nd[1])
+        return 1
+    path = rng.choice([
+        [('rec', False)],
+        [('rec', False), ('key', 'a', 'item')],
+        [('rec', False), ('key', 'x', 'item')],
+        [('rec', False), ('idx', 0)],
+        [('rec', False), ('wc', False)],
+        [('gwc', True, False), ('rec', False)],
+        [('rec', False), ('gwc', True, False), ('key', 'k', 'item')],
+    ])
+    return {'heap': heap, 'root': 0, 'path': path, 'vals': rng.random() < 0.3, 'nexts': min(400, size(0) * 2 + 2)}
